@@ -5,6 +5,7 @@
 -/
 import Relic.Proofs.Der
 import Relic.Proofs.DerTree
+import Relic.Proofs.DerResynth
 namespace Relic.Props.C16
 open Relic Relic.Der
 
@@ -218,11 +219,42 @@ theorem resynth_nodes_need_der_partial (sh : Shape) (bs : Bytes) (f f' : Forest)
   subst e
   exact parse_strict_roundtrip sh bs f hs hd
 
-/-- full statement (converse not proved): under a BER reader a re-synthesised tree is reproduced
-    *iff* the strict reader accepts the input. -/
-def resynth_nodes_need_der_full : Prop :=
-  ∀ (sh : Shape) (bs : Bytes) (f : Forest), sh.noTail = true → parse true sh bs = .ok f →
-    (emit f = bs ↔ parse false sh bs = .ok f)
+/-- **resynth_nodes_need_der** (was `resynth_nodes_need_der_full`).  Under a BER reader, a tree none of whose
+    nodes is raw-captured (`sh.noRaw`: every header is re-synthesised) is reproduced by the re-encoding *iff* the
+    strict reader accepts the input (with the same tree) — i.e. iff every header the schema looks at was DER.
+    `bs.length < 2^31` is the limit of Go's parser (`parseTagAndLength` refuses longer lengths). -/
+theorem resynth_nodes_need_der (sh : Shape) (bs : Bytes) (f : Forest) (hs : sh.noTail = true) (hr : sh.noRaw = true)
+    (hb : bs.length < 2 ^ 31) (hl : parse true sh bs = .ok f) :
+    emit f = bs ↔ parse false sh bs = .ok f := by
+  rw [← parseMix_eq_strict sh hr bs]
+  exact resynth_iff_mix sh bs f hs hb hl
+
+/-- **resynth_nodes_need_der_mixed.**  The general form, raw-captured nodes included: the re-encoding reproduces the
+    input iff the reader that is strict exactly at the re-synthesised headers (`prim`, `node`, `rawc`) and
+    BER-tolerant at the raw-captured ones (`parseMix`) accepts it.  Raw-captured nodes never matter
+    (`raw_nodes_verbatim`), re-synthesised ones always do. -/
+theorem resynth_nodes_need_der_mixed (sh : Shape) (bs : Bytes) (f : Forest) (hs : sh.noTail = true)
+    (hb : bs.length < 2 ^ 31) (hl : parse true sh bs = .ok f) :
+    emit f = bs ↔ parseMix sh bs = .ok f := resynth_iff_mix sh bs f hs hb hl
+
+/-- non-vacuity, both ways: a DER input (both sides true), a non-DER header on a re-synthesised node (both sides
+    false), for a schema `SEQUENCE { prim, rawc { prim } }` -/
+example : Shape.noTail (.node (.prim (.rawc .done)) .done) = true ∧ Shape.noRaw (.node (.prim (.rawc .done)) .done) = true ∧
+    (parse true (.node (.prim (.rawc .done)) .done) [0x30, 8, 2, 1, 5, 0x30, 3, 4, 1, 7]).isOk = true ∧
+    (parse false (.node (.prim (.rawc .done)) .done) [0x30, 8, 2, 1, 5, 0x30, 3, 4, 1, 7]).isOk = true ∧
+    (parse true (.node (.prim (.rawc .done)) .done) [0x30, 9, 2, 0x81, 1, 5, 0x30, 3, 4, 1, 7]).isOk = true ∧
+    (parse false (.node (.prim (.rawc .done)) .done) [0x30, 9, 2, 0x81, 1, 5, 0x30, 3, 4, 1, 7]).isOk = false := by decide
+
+/-- the restriction to schemas without raw-captured nodes is needed for the statement with the *strict* reader on
+    the right: a raw-captured node with a non-minimal header is reproduced although Go's reader refuses the
+    input (this is the statement `resynth_nodes_need_der_full` asked for, without `noRaw`: it is false) -/
+theorem resynth_nodes_need_der_needs_noRaw :
+    ¬ ∀ (sh : Shape) (bs : Bytes) (f : Forest), sh.noTail = true → parse true sh bs = .ok f →
+      (emit f = bs ↔ parse false sh bs = .ok f) := by
+  intro h
+  have := (h (.raw .done) [4, 0x81, 1, 7] (.raw [4, 0x81, 1, 7] .nil) (by decide) (by decide)).mp (by decide)
+  revert this
+  decide
 
 /-- witness for the converse direction: a re-synthesised node with a non-minimal header changes, a raw
     node with the same liberty inside does not; a trailing element is dropped. -/
